@@ -27,7 +27,7 @@ CLAIMED = {
  "C12": dict(
    technique="property-based testing: rapid-generated programs against a reference interpreter, the capture-equivalence metamorphic relation, and an exhaustive family with a Drop over live state shadowed by a loop",
    text="Generated programs interleaving assign, capture, loops that shadow outer names and forloop, conditionals and cycles end with a read of every variable and are compared with the reference interpreter; every generated fragment F is also rendered directly and through capture+print, which must agree.",
-   note="Trusted: the reference interpreter. The include clause of the statement is exercised by C14's check (included templates read assigned variables). Outcomes the statements leave open are counted as unspecified and asserted nowhere.",
+   note="Trusted: the reference interpreter. The include clause of the statement is exercised by C14's check (included templates read assigned variables, among them one the top template calls forloop). Outcomes the statements leave open are counted as unspecified and asserted nowhere.",
    ref="DESIGN.md 7.C12"),
  "C10": dict(
    technique="property-based testing: exhaustive branch-position enumeration with counting/failing conditions, exhaustive case subject x when pairs, if/unless duality as a metamorphic relation, rapid-generated programs against a reference interpreter",
@@ -88,7 +88,7 @@ CLAIMED = {
  "C14": dict(
    technique="property-based testing: metamorphic relation include = the selected content rendered on its own (capture) and inserted as a value, over rapid-generated include graphs laid out in temporary directories with per-file disk/cache/both/empty/missing states",
    text="Generated include graphs (chains to depth 4, leaves in nested directories, equal base names with distinct content) with every file independently on disk, cache-only, in both with different content, zero bytes on disk, or missing, and include arguments spelled six ways, must render exactly like the template in which every include is replaced recursively by the content the statement selects; missing files, non-string arguments and errors inside included templates (also a break or continue outside every loop of the included file, with the include tag inside a loop) must fail the render without output; cached source must be used when the file cannot be read for another reason than ENOENT, whatever the caller later does with the buffer it registered, and a file name of a named string type is a file name.",
-   note="Trusted: the harness's inliner (disk over cache). Relative names are resolved against the directory of the path the rendered (top-level) template was parsed with, at every depth; a second top-level template in a sub-directory is rendered on the same engine for a third of the cases; variables assigned inside an included template are not probed afterwards; hyphenated tags and objects of the includer facing an include tag are generated (the included output is inserted exactly, as a value is); cached sources are sometimes registered under a path that is not in its shortest form, and a file is sometimes deleted between registration and render. Temporary directories live under the run's scratch directory and are removed per case.",
+   note="Trusted: the harness's inliner (disk over cache). Relative names are resolved against the directory of the path the rendered (top-level) template was parsed with, at every depth; a second top-level template in a sub-directory is rendered on the same engine for a third of the cases; variables assigned inside an included template are not probed afterwards; hyphenated tags and objects of the includer facing an include tag are generated (the included output is inserted exactly, as a value is); cached sources are sometimes registered under a path that is not in its shortest form, and a file is sometimes deleted between registration and render; for a quarter of the cases the top template assigns a variable called forloop and every file prints it. Temporary directories live under the run's scratch directory and are removed per case.",
    ref="DESIGN.md 7.C14"),
  "C02": dict(
    technique="property-based testing: identity relation over ~21 executions per generated case (entry points, re-parses, fresh engines, a fresh process, the command-line binary) with bindings re-realised in other insertion orders and at other addresses",
